@@ -7,6 +7,7 @@ import (
 	"encoding/json"
 	"errors"
 	"fmt"
+	"os"
 	"runtime"
 	"sort"
 	"strings"
@@ -103,6 +104,8 @@ func stableGoroutines() int {
 
 var last struct{ txs int }
 
+var cold = true // the first workload of the process
+
 func runCase(c Case) *pt.Failure {
 	return pt.Guard("C20/crash", func() *pt.Failure {
 		env.ResetCase()
@@ -166,6 +169,8 @@ func runCase(c Case) *pt.Failure {
 			return pt.Failf("C20/lock-up", "the workload did not terminate within 40 s\n%s", trimStacks(string(buf)))
 		}
 		last.txs = len(results)
+		wasCold := cold
+		cold = false
 		for _, r := range results {
 			if r.err != nil && strings.HasPrefix(r.err.Error(), "PANIC") {
 				return pt.Failf("C20/panic", "worker %d tx %d: %v", r.worker, r.idx, r.err)
@@ -184,6 +189,9 @@ func runCase(c Case) *pt.Failure {
 			return pt.Failf("C20/xa-branch-left", "XA branches left in the database: %v", left)
 		}
 		conns1, _, _ := env.Srv.Stats()
+		if wasCold {
+			return nil // pools, singletons and background goroutines came into being during this workload
+		}
 		if conns1 > conns0+2 {
 			var sb strings.Builder
 			for _, id := range env.Srv.ConnIDs() {
@@ -319,7 +327,14 @@ func runTx(t Tx, names []string, phase2 *sync.WaitGroup) (err error) {
 }
 
 func TestMain(m *testing.M) {
-	env = atenv.Get(atenv.Options{XA: true})
+	version := "8.0.30"
+	if sh := os.Getenv("VERIF_SHARD"); sh != "" && (sh[len(sh)-1]-'0')%2 == 1 {
+		version = "5.7.30" // XA connections are held for phase two on this profile
+	}
+	if v := os.Getenv("C20_VERSION"); v != "" {
+		version = v
+	}
+	env = atenv.Get(atenv.Options{XA: true, Version: version})
 	env.Srv.SetLockWait(3 * time.Second)
 	atenv.UndoConfig("json", "None", true, true) // once: the configuration is not meant to change at run time
 	var err error
@@ -336,12 +351,32 @@ func TestMain(m *testing.M) {
 		}
 		return runCase(c)
 	})
-	// warm-up: singletons, pools and background goroutines exist before anything is measured
-	_ = runCase(Case{Workers: [][]Tx{{{Kind: "at", Via: "db", Rows: []int{1}, Decision: "commit"}, {Kind: "xa", Via: "db", Rows: []int{2}, Decision: "commit"}, {Kind: "tcc", Decision: "commit"}}}, Tables: 1})
+	// no warm-up: the first workload of a process meets every lazily initialised singleton from several
+	// goroutines at once (first-use races show only there); its leak probes are skipped instead
 	ctx.Main(m)
 }
 
+// coldCase: every kind of transaction and both decisions on 8 workers, as the first thing a process does.
+func coldCase() Case {
+	c := Case{Tables: 2}
+	kinds := []string{"at", "at", "xa", "tcc", "at", "xa", "at", "tcc"}
+	for w := 0; w < 8; w++ {
+		dec := []string{"rollback", "commit"}[w%2]
+		c.Workers = append(c.Workers, []Tx{
+			{Kind: kinds[w], Via: []string{"db", "conn"}[w%2], Rows: []int{1 + w%8}, Decision: dec},
+			{Kind: kinds[(w+3)%8], Via: "db", Rows: []int{1 + (w+4)%8}, Decision: []string{"commit", "rollback"}[w%2], Insert: w%3 == 0},
+		})
+	}
+	return c
+}
+
 func TestPropConcurrentWorkload(t *testing.T) {
+	if cold {
+		c := coldCase()
+		fl := runCase(c)
+		ctx.Rec.Case("cold-start", true, "cold-start", c, "cold-start")
+		ctx.Judge(t, "cold-start", fl, c)
+	}
 	ctx.Check(t, func(rt *rapid.T) {
 		c := Case{NewConns: rapid.IntRange(0, 3).Draw(rt, "newConns") == 0, Tables: rapid.IntRange(1, 2).Draw(rt, "tables")}
 		nw := rapid.IntRange(2, 8).Draw(rt, "workers")
